@@ -171,8 +171,11 @@ func genG11(repo string, w *Out) error {
 	if err != nil {
 		return err
 	}
-	if got := pcf.Src(npc.Body); got != "{ return &proxyConn{ Proxy: p, brw: bufio.NewReadWriter(bufio.NewReader(conn), bufio.NewWriter(conn)), conn: conn, } }" {
-		return fmt.Errorf("newProxyConn: body %q is not the plain constructor the model assumes", got)
+	for _, c := range pcf.callsOnIdent(npc.Body.List, "conn") {
+		// the constructor may wrap the connection (bufio, io.LimitedReader literal) but must not call it
+		if c != "<escape:bufio.NewReader>" && c != "<escape:bufio.NewWriter>" {
+			return fmt.Errorf("newProxyConn: %s on the connection - not the plain constructor the model assumes", c)
+		}
 	}
 	var preHs []string
 	for _, c := range px.callsOnIdent(hl.Body.List[:hsAt], "conn") {
